@@ -129,12 +129,12 @@ def findOpening (opening : Nat) : List (Nat × Nat × Nat) → Option ((Nat × N
   | e :: rest => if e.1 == opening then some (e, rest) else findOpening opening rest
 
 /-- one character `(run_index, seg)` of `identify_bracket_pairs` -/
-def bpStep (ds : DataSource) (pcs : Classes) (st : BPState) (x : Nat × Seg) : BPState :=
+def bpStep (ds : DataSource) (ocs pcs : Classes) (st : BPState) (x : Nat × Seg) : BPState :=
   if st.stopped then st
   else
     let runIdx := x.1
     let actual := x.2.start
-    if cget pcs actual != ON then st
+    if cget pcs actual != ON || (cget ocs actual).removedByX9 then st
     else match ds.brk x.2.cp with
       | none => st
       | some m =>
@@ -162,8 +162,8 @@ def seqChars (t : Text) (seq : IRSeq) : List (Nat × Seg) :=
   (seq.runs.zipIdx).flatMap (fun (r, k) =>
     (t.segs.filter (fun s => r.1 ≤ s.start && s.start < r.2)).map (fun s => (k, s)))
 
-def identifyBracketPairs (ds : DataSource) (t : Text) (seq : IRSeq) (pcs : Classes) : List BracketPair :=
-  sortPairs ((seqChars t seq).foldl (bpStep ds pcs) {}).pairs
+def identifyBracketPairs (ds : DataSource) (t : Text) (seq : IRSeq) (ocs pcs : Classes) : List BracketPair :=
+  sortPairs ((seqChars t seq).foldl (bpStep ds ocs pcs) {}).pairs
 
 /-- the scan of the characters enclosed by a pair: `(found_e, found_not_e)` -/
 def scanEnclosed (pcs : Classes) (e notE : BidiClass) (stop : Nat) : List Nat → Bool → Bool × Bool
@@ -255,7 +255,7 @@ def resolveNeutral (ds : DataSource) (t : Text) (seq : IRSeq) (levels : List Nat
   | [] => (pcs, some .indexOutOfBounds)
   | r0 :: _ =>
     let e := Level.bidiClass (levels.getD r0.1 0)
-    let pairs := identifyBracketPairs ds t seq pcs
+    let pairs := identifyBracketPairs ds t seq ocs pcs
     let (pcs, err) := pairs.foldl (n0Pair t seq e ocs) (pcs, none)
     (n12 seq e pcs, err)
 
